@@ -525,6 +525,88 @@ func (c *Ctx) HasZeroSizeArrayElem(d *schema.Def) bool {
 	return walkD(d)
 }
 
+// reach calls f for d and every definition reachable from it through fields and branches.
+func (c *Ctx) reach(d *schema.Def, f func(*schema.Def)) {
+	seen := map[string]bool{}
+	var walk func(d *schema.Def)
+	walk = func(d *schema.Def) {
+		if d == nil || seen[d.Name] {
+			return
+		}
+		seen[d.Name] = true
+		f(d)
+		for _, fd := range d.Fields {
+			if n := fd.Type.Leaf(); !schema.IsPrimitive(n) {
+				walk(c.S.Find(n))
+			}
+		}
+		for _, b := range d.Branches {
+			walk(b.Def)
+		}
+	}
+	walk(d)
+}
+
+// carriesDeprecated: a message (anywhere below d, d included) has a deprecated field, i.e. a
+// peer may put bytes on the wire that the reader's own Size() does not count.
+func (c *Ctx) carriesDeprecated(d *schema.Def) bool {
+	found := false
+	c.reach(d, func(x *schema.Def) {
+		if x.Kind == "message" {
+			for _, f := range x.Fields {
+				if f.Deprecated {
+					found = true
+				}
+			}
+		}
+	})
+	return found
+}
+
+// HasNestedStructHoldingDeprecated reports whether d reaches a field (or element, or map value)
+// whose type is a STRUCT that holds — directly or through further structs — a message or union
+// that can carry deprecated fields. Such a struct is skipped by its recomputed Size() on the
+// byte path (known finding, DESIGN section 11): the locus of that finding is this predicate.
+func (c *Ctx) HasNestedStructHoldingDeprecated(d *schema.Def) bool {
+	var holds func(s *schema.Def, seen map[string]bool) bool
+	holds = func(s *schema.Def, seen map[string]bool) bool {
+		if s == nil || s.Kind != "struct" || seen[s.Name] {
+			return false
+		}
+		seen[s.Name] = true
+		for _, f := range s.Fields {
+			n := f.Type.Leaf()
+			if schema.IsPrimitive(n) {
+				continue
+			}
+			x := c.S.Find(n)
+			if x == nil {
+				continue
+			}
+			if (x.Kind == "message" || x.Kind == "union") && c.carriesDeprecated(x) {
+				return true
+			}
+			if x.Kind == "struct" && holds(x, seen) {
+				return true
+			}
+		}
+		return false
+	}
+	found := false
+	c.reach(d, func(x *schema.Def) {
+		for _, f := range x.Fields {
+			n := f.Type.Leaf()
+			if schema.IsPrimitive(n) {
+				continue
+			}
+			if y := c.S.Find(n); y != nil && y.Kind == "struct" && holds(y, map[string]bool{}) {
+				found = true
+			}
+		}
+	})
+	return found
+}
+
 // minSize is the minimal wire size of a value of type t (0 only for empty structs).
 func (c *Ctx) minSize(t schema.Type) int {
 	switch t.Kind {
